@@ -1,5 +1,6 @@
 """C14 - bucket batch sampler, data loaders, collation, context windows (E1 + E3)."""
 
+import contextlib
 import itertools
 import os
 
@@ -8,7 +9,7 @@ import torch
 import pydrobert.torch.data as data
 
 from mc.runner import Ctx
-from mc.seams import SimulatedGroup
+from mc.seams import SimulatedGroup, ListingPolicy, LISTING_POLICIES
 from mc.oracles import samplers as O
 from checks import _c14_common as C
 
@@ -127,6 +128,8 @@ def shards(tier, seed):
         out += [{"part": "dist", "kind": k, "i": i, "of": 4} for k in ("spect", "lang") for i in range(4)]
         out += [{"part": "mid", "kind": k, "i": i, "of": 4} for k in ("spect", "lang") for i in range(4)]
     out += [{"part": "window", "i": i, "of": 4} for i in range(4)]
+    out += [{"part": "listing", "kind": k, "policy": pol, "i": i, "of": 2} for k in ("spect", "lang")
+            for pol in LISTING_POLICIES[1:] for i in range(2)]
     out += [{"part": "direct"}]
     only = os.environ.get("VERIF_C14_PARTS")  # development aid: run a subset of the passes (never set by MANIFEST)
     if only:
@@ -212,6 +215,7 @@ def _run_bucket(ctx, spec, tier):
 
 # ------------------------------------------------------------------ (b) loaders ----------
 _STYLE = [0]
+_LISTING = [None]  # listing policy the current run_loader call runs under (part of its replay case)
 
 
 def _make(kind, path, bc, fl, init_epoch, mode, style):
@@ -246,6 +250,8 @@ def run_loader(ctx, kind, corpus, root, variant, bc, fl, epochs=3, fresh=(1, 2),
             "epochs": epochs, "fresh": list(fresh), "group": list(group) if group else None, "mode": mode,
             "style": style, "abandon": abandon}
     sig = {"api": api, "empty": corpus.n == 0, "bucketed": bc["B"] > 1, "distributed": W > 1}
+    if _LISTING[0]:
+        case["listing"] = sig["listing_order"] = _LISTING[0]
     if torch.get_default_dtype() != torch.float32:
         case["default_dtype"] = sig["default_dtype"] = str(torch.get_default_dtype())
     if kind == "lang":
@@ -393,6 +399,39 @@ def _loader_pass(ctx, spec, tier, seed):
                     ctx.outcome([len(x) for x in out] + [out[0][:2]] if out != "raise" else out)
                     if lens == (3, 1, 3, 2, 2) and bc == dict(bs=2, B=2, dyn=True, drop=False, seed=None) and fl == FLAGS_BASE:
                         ctx.sample({"loader": kind, "feat_lengths": list(lens), "config": bc, "epoch0_batches": out[0]})
+
+
+def _listing_pass(ctx, spec, tier, seed):
+    """The order in which the operating system lists feat/, ali/ and ref/ is an environment answer: every corpus of 2-3
+    utterances (all length multisets; 3 entries = every permutation over the six policies) and one of 5 is loaded under
+    the listing policy of this shard; every clause of run_loader (len, reproducibility, purity, lossless collation with
+    ids attached) must hold exactly as under the stock listing, and the batches must be the ones the sorted listing gives."""
+    kind, pol = spec["kind"], spec["policy"]
+    corpora = [c for c in _corpora("quick") if 2 <= len(c) <= 3] + [(3, 1, 3, 2, 2)]
+    plan = [("A", bc, dict(FLAGS_BASE), 2, (1,)) for bc in _batchings(seeds=(None, 0), bss=(1, 2))]
+    plan += [(v, BATCHINGS_SMALL[1], fl, 1, (0,)) for v in (("A", "B", "C") if kind == "spect" else ("A", "B"))
+             for fl in list(_flags(kind))[:: 3]]
+    with C.Scratch("c14-listing-%s-%s-%d" % (kind, pol, spec["i"])) as root:
+        for lens in corpora[spec["i"]:: spec["of"]]:
+            corpus = C.Corpus(lens, seed)
+            for variant, bc, fl, epochs, fresh in plan:
+                ctx.case(1, 1)
+                base = run_loader(ctx, kind, corpus, root, variant, bc, fl, epochs, fresh, style=0)
+                _LISTING[0] = pol
+                try:
+                    with ListingPolicy(pol) as lp:
+                        out = run_loader(ctx, kind, corpus, root, variant, bc, fl, epochs, fresh, style=0)
+                finally:
+                    _LISTING[0] = None
+                ctx.count("directory-listings-answered-by-the-seam", lp.calls)
+                if base is not None and out is not None and out != base:
+                    ctx.violation({"api": "SpectDataLoader" if kind == "spect" else "LangDataLoader",
+                                   "symptom": "batches-depend-on-directory-listing-order"},
+                                  {"kind": "listing", "api": kind, "lens": list(lens), "variant": variant, "bc": bc,
+                                   "fl": fl, "epochs": epochs, "fresh": list(fresh), "policy": pol},
+                                  {"stock_listing": base, "this_listing": out})
+                if out is not None:
+                    ctx.outcome([pol, out if out == "raise" else [len(x) for x in out]])
 
 
 def _dist_pass(ctx, spec, tier, seed):
@@ -786,6 +825,8 @@ def run_shard(spec, tier, seed):
         _mid_pass(ctx, spec, tier, seed)
     elif part == "window":
         _window_pass(ctx, spec, tier, seed)
+    elif part == "listing":
+        _listing_pass(ctx, spec, tier, seed)
     else:
         _direct_pass(ctx, seed)
     return ctx
@@ -808,13 +849,28 @@ def replay(case):
                 grp = tuple(case["group"]) if case["group"] else None
                 args = (ctx, case["api"], corpus, root, case["variant"], case["bc"], case["fl"], case["epochs"],
                         tuple(case["fresh"]), grp, case["mode"], case["style"], case.get("abandon", False))
-                if grp:
-                    with SimulatedGroup(*grp):
+                _LISTING[0] = case.get("listing")
+                with (ListingPolicy(case["listing"]) if case.get("listing") else contextlib.nullcontext()):
+                    if grp:
+                        with SimulatedGroup(*grp):
+                            run_loader(*args)
+                    else:
                         run_loader(*args)
-                else:
-                    run_loader(*args)
             finally:
+                _LISTING[0] = None
                 torch.set_default_dtype(old)
+    elif kind == "listing":
+        with C.Scratch("c14-replay") as root:
+            corpus = C.Corpus(case["lens"], seed)
+            args = (ctx, case["api"], corpus, root, case["variant"], case["bc"], case["fl"], case["epochs"],
+                    tuple(case["fresh"]))
+            base = run_loader(*args, style=0)
+            with ListingPolicy(case["policy"]):
+                out = run_loader(*args, style=0)
+            if base is not None and out is not None and out != base:
+                ctx.violation({"api": "SpectDataLoader" if case["api"] == "spect" else "LangDataLoader",
+                               "symptom": "batches-depend-on-directory-listing-order"}, case,
+                              {"stock_listing": base, "this_listing": out})
     elif kind == "mid":
         with C.Scratch("c14-replay") as root:
             corpus = C.Corpus(case["lens"], seed)
